@@ -20,7 +20,9 @@ GROUP = dict(
            dict(id='T.QualifierKey.Deref', kind='block', file='purl/src/qualifiers.rs', header=r'impl Deref for QualifierKey',
                 rw=[('R0', r'impl Deref for', 'impl core::ops::Deref for', 1),
                     ('R10', r'fn deref\(&self\) -> &Self::Target \{', 'fn deref(&self) -> (r: &str)\n        ensures r@ == self.0@\n    {', 1)]),
+           dict(id='theory.enc', kind='raw', text=_c.theory_text('enc.rs')),
            dict(id='theory.fmt', kind='raw', text=_c.theory_text('fmt.rs')),
+           dict(id='theory.canon', kind='raw', text=_c.theory_text('canon.rs')),
            _c.contract_only('lib_shape', 'U-vtype.is_valid_package_type'),
            _c.contract_only('qual', 'U-qmap.is_empty'),
            _c.unit_of('qual', 'T.Iter'), _c.unit_of('qual', 'spec.Iter'),
